@@ -74,6 +74,78 @@ def valid_model(rng, tag: str = "") -> str:
     return "\n".join(out) + "\n"
 
 
+def deep_model(rng, tag: str = "") -> str:
+    """A valid meta-model with an inheritance CHAIN of depth 3..4 (a class with a grandparent and
+    a great-grandparent) and a DIAMOND (two abstract bases sharing a root, joined again, with a
+    further descendant), an enumeration and a class referring to the hierarchy: direct
+    inheritances differ from the ancestors, so the derived id-sets rebuilt on unpickling are
+    exercised for indirect ancestors / descendants."""
+    w = rng.sample(WORDS, 6)
+    out = ["from enum import Enum", "from typing import List, Optional, Set", "",
+           "from icontract import invariant, DBC", "", ""]
+    if tag:
+        out.insert(0, f"# {tag}")
+    out.append(f"class Kind_{w[0]}(Enum):")
+    lits = rng.sample(WORDS, rng.randint(2, 4))
+    for lit in lits:
+        out.append(f"    {lit.capitalize()} = \"{lit}\"")
+    out += ["", ""]
+    # a constant set of enumeration literals and a chain of constrained primitives (depth 3)
+    out.append(f"Some_kinds_{w[5]}: Set[Kind_{w[0]}] = constant_set(values=["
+               + ", ".join(f"Kind_{w[0]}.{x.capitalize()}" for x in lits[:2]) + "])")
+    out += ["", ""]
+    out.append("@invariant(lambda self: len(self) > 0, \"Non-empty\")")
+    out.append(f"class Non_empty_{w[5]}(str, DBC):\n    pass\n\n")
+    out.append("@invariant(lambda self: len(self) < 100, \"Short\")")
+    out.append(f"class Short_{w[5]}(Non_empty_{w[5]}, DBC):\n    pass\n\n")
+    out.append(f"class Tiny_{w[5]}(Short_{w[5]}, DBC):\n    pass\n\n")
+    root = f"Root_{w[1]}"
+    root_props = [("identifier", "str")]
+    out.append(_class(root, root_props, decorators=["@abstract", "@serialization(with_model_type=True)"]))
+    out.append("")
+    # the chain
+    depth = rng.randint(3, 4)
+    prev, prev_props = root, list(root_props)
+    chain = []
+    for i in range(depth):
+        name = f"Level{i}_{w[2]}"
+        t = rng.choice(PRIMS + [f"Kind_{w[0]}"])
+        if rng.random() < 0.3:
+            t = f"Optional[{t}]"
+        props = [(f"{w[2]}_{i}", t)]
+        decs = []
+        if t == "str" and rng.random() < 0.6:
+            decs.append(f"@invariant(lambda self: len(self.{props[0][0]}) > 0, \"{props[0][0]} must be non-empty\")")
+        out.append(_class(name, props, base=prev, base_props=prev_props, decorators=decs))
+        out.append("")
+        chain.append(name)
+        prev, prev_props = name, prev_props + props
+    # the diamond
+    left, right, join, below = f"Left_{w[3]}", f"Right_{w[3]}", f"Join_{w[3]}", f"Below_{w[3]}"
+    lp, rp = [("left_text", "str")], [("right_value", "int")]
+    out.append(_class(left, lp, base=root, base_props=root_props, decorators=["@abstract"]))
+    out.append("")
+    out.append(_class(right, rp, base=root, base_props=root_props, decorators=["@abstract"]))
+    out.append("")
+    jp = [("extra", "bool")]
+    lines = [f"class {join}({left}, {right}, DBC):", "    extra: bool", "",
+             "    def __init__(self, identifier: str, left_text: str, right_value: int, extra: bool) -> None:",
+             f"        {left}.__init__(self, identifier, left_text)",
+             f"        {right}.__init__(self, identifier, right_value)",
+             "        self.extra = extra"]
+    out.append("\n".join(lines) + "\n")
+    out.append("")
+    out.append(_class(below, [("carat", "float")], base=join, base_props=root_props + lp + rp + jp))
+    out.append("")
+    out.append(_class(f"Holder_{w[4]}", [("any_node", root), ("first", chain[0]),
+                                          ("deepest", f"List[{chain[-1]}]"), ("joined", f"Optional[{join}]"),
+                                          ("tiny", f"Tiny_{w[5]}")]))
+    out.append("")
+    out.append("__version__ = \"dummy\"")
+    out.append("__xml_namespace__ = \"https://dummy.com\"")
+    return "\n".join(out) + "\n"
+
+
 def break_model(rng, text: str) -> str:
     """An invalid variant of a valid text (each goes through a different error exit of
     load_model)."""
@@ -86,7 +158,9 @@ def break_model(rng, text: str) -> str:
         # a function at module level that is not a verification function
         return text + "\n\ndef stray(x):\n    return x\n"
     if kind == "translate":
-        return text.replace("node: Node_", "node: Unknown_", 1)
+        if "node: Node_" in text:
+            return text.replace("node: Node_", "node: Unknown_", 1)
+        return text.replace("any_node: Root_", "any_node: Unknown_", 1)
     return text.replace('__version__ = "dummy"\n', "")
 
 
@@ -106,7 +180,8 @@ def edit_model(rng, text: str) -> str:
 
 def history(rng, max_len: int = 6) -> List[Tuple[str, bool]]:
     """A history of runs (text, flag): a few texts, revisited, with and without the flag."""
-    base = valid_model(rng, tag=f"m{rng.randint(0, 10**9)}")
+    tag = f"m{rng.randint(0, 10**9)}"
+    base = deep_model(rng, tag=tag) if rng.random() < 0.7 else valid_model(rng, tag=tag)
     texts = [base]
     for _ in range(rng.randint(0, 2)):
         texts.append(edit_model(rng, rng.choice(texts)))
